@@ -252,6 +252,43 @@ class Builder:
         return "same_local_two_helpers"
 
     # ---- classes of open findings (off by default)
+    def s_shadow(self, target):
+        """a name bound in an inner scope (comprehension variable, helper parameter, helper local) must not change the type the
+        outer name is known by: values derived from the outer name afterwards keep its type."""
+        x = self.name()
+        t = self.draw(st.sampled_from(["float", "float", "str", "bool", "int"]))
+        lines = [f"{x} = {self.val(t)}"]
+        kind = self.draw(st.sampled_from(["comp", "comp_expr", "param", "local"]))
+        if kind in ("comp", "comp_expr"):
+            l = self.name("l")
+            a = self.draw(st.integers(1, 4))
+            body = x if kind == "comp" else self.draw(st.sampled_from([f"{x} * 2", f"{x} + 1", f"({x} * {x})"]))
+            lines += [f"{l} = [{body} for {x} in range({a})]", f"mon.write({l}[{self.draw(st.integers(0, a - 1))}])"]
+        elif kind == "param":
+            h = self.name("h")
+            if self.draw(st.booleans()):
+                self.pre.append(lines.pop())  # the top-level name exists before the def is parsed
+            self.pre += [f"def {h}({x}: int):", f"    return {x} + 1"]
+            lines += [f"mon.write({h}({self.val('int')}))"]
+        else:
+            h, a = self.name("h"), self.name("a")
+            if self.draw(st.booleans()):
+                self.pre.append(lines.pop())
+            self.pre += [f"def {h}({a}: int):", f"    {x} = {a} * 2", f"    return {x} + 1"]
+            lines += [f"mon.write({h}({self.val('int')}))"]
+        y = self.name()
+        use = {"float": [f"{y} = {x} + 1", f"{y} = {x}", f"{y} = {x} * 2"], "int": [f"{y} = {x} + 1", f"{y} = {x}"], "str": [f"{y} = {x}", f"{y} = {x} + \"!\""],
+               "bool": [f"{y} = {x}"]}[t]
+        lines += [self.draw(st.sampled_from(use)), f"mon.write({y})", f"mon.write({x})"]
+        if t != "bool" and self.draw(st.booleans()):
+            g, b = self.name("h"), self.name("a")
+            ann = {"float": "float", "str": "str", "int": "int"}[t]
+            self.pre += [f"def {g}({b}: {ann}):", f"    return {b}"]
+            z = self.name()
+            lines += [f"{z} = {g}({x})", f"mon.write({z})"]
+        self.out(target, lines)
+        return "shadow_" + kind
+
     def s_retype(self, target):
         x = self.name()
         form = self.draw(st.sampled_from(["assign", "aug", "swap"]))
@@ -295,7 +332,7 @@ class Builder:
 
 
 SAFE = ["if_else_join", "ifexp_join", "float_first", "branch_hoist", "elif_hoist", "for_hoist", "while_hoist", "return_join", "annotated_param",
-        "list_join", "string_promotion", "tuple", "cross_pass", "mixed_arith", "device_getter", "nested_hoist", "same_local_two_helpers"]
+        "list_join", "string_promotion", "tuple", "cross_pass", "mixed_arith", "device_getter", "nested_hoist", "same_local_two_helpers", "shadow"]
 OPEN = ["retype", "multi_signature", "unannotated_param", "branch_in_loop", "float_minmaxabs", "main_loop_first_assign"]
 
 
